@@ -68,6 +68,11 @@ var (
 	goTasks  sync.Map // goroutine id -> *Task
 )
 
+// FreeMode reports whether tasks currently run as real parallel goroutines.
+//
+//go:norace
+func FreeMode() bool { return freeMode }
+
 func goid() uint64 {
 	var buf [64]byte
 	n := runtime.Stack(buf[:], false)
